@@ -57,6 +57,8 @@ struct Plan {
     seen: HashSet<Tab>,
     /// running number of `fg` cases, for the deterministic 1-in-8 sample that gets index 4
     count: u64,
+    /// cheap mode: literal clauses and abelianisation only (no subgroup / order oracles)
+    cheap: bool,
 }
 
 /// index bound for the subgroup-class oracle, from the number of generators the
@@ -93,8 +95,8 @@ fn fg_case(ctx: &mut Ctx, plan: &mut Plan, t: &Tab, kind: &str, dedupe: bool) {
         let ds = ds.get_or_insert_with(|| t.to_partial_dsym());
         if is_fg {
             let preview = catch_unwind(AssertUnwindSafe(|| fundamental_group(ds).nr_generators())).unwrap_or(0);
-            let kmax = kmax_for(preview, t.size, plan.quick, k % 8 == 0);
-            let tclimit = if t.dim == 3 { if plan.quick { 2000 } else { 6000 } } else { 0 };
+            let kmax = if plan.cheap { 0 } else { kmax_for(preview, t.size, plan.quick, k % 8 == 0) };
+            let tclimit = if plan.cheap { 0 } else if t.dim == 3 { if plan.quick { 2000 } else { 6000 } } else { 0 };
             let sz = size_bucket(t.size);
             let gb = match preview {
                 0..=5 => format!("gens={}", preview),
@@ -210,7 +212,7 @@ fn main() {
     let mut ctx = Ctx::from_args();
     let th = ctx.thorough();
     let mut rng = ctx.rng(9);
-    let mut plan = Plan { quick: !th, seen: HashSet::new(), count: 0 };
+    let mut plan = Plan { quick: !th, seen: HashSet::new(), count: 0, cheap: false };
 
     // (0) the symbols pinned by the library's own tests and the known finite groups
     let pinned = [
@@ -251,7 +253,7 @@ fn main() {
           (6, 6, 0.0, 3, 1), (7, 6, 0.0, 1, 2)]
     } else {
         &[(1, 3, 30.0, 12, 1), (2, 3, 30.0, 12, 1), (3, 3, 30.0, 12, 1), (4, 3, 30.0, 3, 1), (5, 3, 30.0, 3, 1),
-          (6, 4, 0.0, 1, 1), (7, 4, 0.0, 1, 8)]
+          (6, 4, 0.0, 1, 2)]
     };
     for &(n, vmax, cap, k, stride) in plan2 {
         let mut nr = 0usize;
@@ -261,6 +263,17 @@ fn main() {
                 symbols_on(&mut ctx, &mut plan, &mut rng, t, vmax, cap, k, "all2d");
             }
         });
+    }
+
+    if !th {
+        // quick: 7 chambers by seeded rejection sampling (enumerating all 12.5 million triples of
+        // involutions in every shard is left to the thorough tier)
+        for _ in 0..1200 {
+            if let Some(t) = random_dset(&mut rng, 2, 7, true) {
+                let s = random_vs(&t, &mut rng, &[1, 2, 3, 4]);
+                fg_case(&mut ctx, &mut plan, &s, "random", true);
+            }
+        }
     }
 
     // (2) 3D
@@ -274,6 +287,46 @@ fn main() {
             symbols_on(&mut ctx, &mut plan, &mut rng, t, vmax, cap, k, "all3d");
         });
     }
+
+    // (2b) a wide seeded sample of connected 3D symbols checked with the cheap clauses only (all
+    //      words reduced, inverse words on the two sides of a facet, generators on their own facet
+    //      pairs, cones / relators = traced 2-orbit words, abelianisation) and the exact model
+    //      comparison.  First the two symbols on which an unreduced in-place product (a factor
+    //      swallowed whole by `*=`) surfaced in the seeded-change study — such defects only show
+    //      for 3D symbols with >= 4 chambers.
+    plan.cheap = true;
+    for s in [
+        "<1.1:4 3:2 4,2 4,3 4,3 4:1 2,4,2 2>",
+        "<1.1:6 3:1 4 3 6,2 5 6,1 2 3 4 5 6,3 5 6:6,4 2 4,2 2 4>",
+    ] {
+        fg_case(&mut ctx, &mut plan, &parse(s), "cheap3d", true);
+    }
+    {
+        // (n, seeded assignments per labelled D-set, keep 1 D-set in `stride`)
+        let wide: &[(usize, usize, usize)] = if th { &[(3, 24, 1), (4, 12, 1), (5, 2, 1)] } else { &[(3, 12, 1), (4, 5, 1), (5, 1, 8)] };
+        for &(n, k, stride) in wide {
+            let mut nr = 0usize;
+            for_each_dset(3, n, |t| {
+                nr += 1;
+                if nr % stride == 0 {
+                    for _ in 0..k {
+                        let vals: &[usize] = if nr % 2 == 0 { &[1, 2, 3, 4] } else { &[1, 1, 2, 2, 3, 4, 5, 6] };
+                        let s = random_vs(t, &mut rng, vals);
+                        fg_case(&mut ctx, &mut plan, &s, "cheap3d", true);
+                    }
+                }
+            });
+        }
+        let nrand = if th { 3000 } else { 400 };
+        for k in 0..nrand {
+            let n = 5 + k % 3;
+            if let Some(t) = random_dset(&mut rng, 3, n, true) {
+                let s = random_vs(&t, &mut rng, &[1, 1, 2, 2, 3, 4, 6]);
+                fg_case(&mut ctx, &mut plan, &s, "cheap3d", true);
+            }
+        }
+    }
+    plan.cheap = false;
 
     // (3) larger seeded symbols and renumberings
     let nrand = if th { 1500 } else { 120 };
